@@ -1,7 +1,12 @@
 #!/usr/bin/env python3-vt
-import json, jsonschema, glob, sys
-jsonschema.validate(json.load(open('/verif/MANIFEST.json')), json.load(open('/root/.vp/MANIFEST.schema.json')))
+"""validate MANIFEST.json and the evidence files of the CLAIMED properties against the schemas"""
+import json, jsonschema, glob, sys, os
+man = json.load(open('/verif/MANIFEST.json'))
+jsonschema.validate(man, json.load(open('/root/.vp/MANIFEST.schema.json')))
 es = json.load(open('/root/.vp/EVIDENCE.schema.json'))
-for f in sorted(glob.glob('/verif/evidence/*.json')):
-    jsonschema.validate(json.load(open(f)), es)
-print('manifest + %d evidence files valid' % len(glob.glob('/verif/evidence/*.json')))
+n = 0
+for c in man['checks']:
+    f = c['evidence_file']
+    if not os.path.exists(f): print('missing evidence', f); sys.exit(1)
+    jsonschema.validate(json.load(open(f)), es); n += 1
+print('manifest + %d evidence files valid' % n)
